@@ -68,7 +68,7 @@ Proof.
   destruct (halfN <? t_s t) eqn:E2; [discriminate|].
   apply negb_false_iff, N.eqb_eq in En.
   apply negb_false_iff in Ep.
-  (* V is one of the two admitted values *)
+  (* V is one of the two values the signer produces *)
   assert (HV : t_v t = 35 + 2 * net \/ t_v t = 36 + 2 * net).
   { unfold derive_net in En. unfold is_protected in Ep.
     destruct (bitlen (t_v t) <=? 64) eqn:E64.
